@@ -3,6 +3,7 @@ package main
 import (
 	"fmt"
 	"net/http"
+	"runtime"
 	"sort"
 	"strings"
 	"testing"
@@ -25,7 +26,43 @@ type c18Case struct {
 	// Preset: the response header map already carries one value for Vary and for every Access-Control-* response
 	// header when the middleware runs (an outer layer put them there)
 	Preset bool `json:"preset_response_headers,omitempty"`
+	// Cold: what is measured is the single first time the request is served after two garbage collections (pooled
+	// scratch memory is gone then), against the same measurement for the base size
+	Cold bool `json:"first_request_after_gc,omitempty"`
 }
+
+// c18ColdAllocs: heap allocations of one single ServeHTTP call right after two garbage collections (which empty every
+// sync.Pool); the smallest of three such measurements. The recorder's own map has been sized by an earlier call.
+func c18ColdAllocs(h http.Handler, r vlib.Req) (uint64, string) {
+	req := r.HTTP()
+	rec := vlib.NewRec()
+	best := ^uint64(0)
+	var ms runtime.MemStats
+	for rep := 0; rep < 4; rep++ {
+		rec.Reset()
+		runtime.GC()
+		runtime.GC()
+		runtime.ReadMemStats(&ms)
+		before := ms.Mallocs
+		h.ServeHTTP(rec, req)
+		runtime.ReadMemStats(&ms)
+		if n := ms.Mallocs - before; rep > 0 && n < best { // (the first round sizes the recorder's map)
+			best = n
+		}
+	}
+	names := make([]string, 0, len(rec.H))
+	for k, v := range rec.H {
+		if len(v) > 0 {
+			names = append(names, k)
+		}
+	}
+	sort.Strings(names)
+	return best, fmt.Sprintf("%d %s", rec.Status, strings.Join(names, ","))
+}
+
+// c18ColdSlack: allocations that do not depend on the request (a pool's New, map growth in the recorder) vary by a
+// few between two measurements.
+const c18ColdSlack = 4
 
 const c18MaxAllocs = 8
 
@@ -210,6 +247,14 @@ func c18Judge(k c18Case) *vlib.Failure {
 	if err != nil {
 		return vlib.Failf("configuration of the C18 alphabet rejected: %v", err)
 	}
+	if k.Cold {
+		big, fb := c18ColdAllocs(h, c18Request(k.Kind, k.Field, k.Size))
+		small, fs := c18ColdAllocs(h, c18Request(k.Kind, k.Field, k.Base))
+		if fb == fs && big > small+c18ColdSlack {
+			return vlib.Failf("the first request after a garbage collection costs %d allocations at size %d and %d at size %d (%s %s, same response %s): scratch memory is grown at a cost that depends on the request", big, k.Size, small, k.Base, k.Kind, k.Field, fb)
+		}
+		return nil
+	}
 	cell := c18Measure(h, c18Request(k.Kind, k.Field, k.Size), k.Preset)
 	if cell.allocs > c18MaxAllocs {
 		return vlib.Failf("%v allocations per request (bound %d) for %s %s size %d (response %s)", cell.allocs, c18MaxAllocs, k.Kind, k.Field, k.Size, cell.finger)
@@ -300,7 +345,7 @@ func checkC18(c *vlib.Ctx) (string, string) {
 								baseOf[cell.finger], baseAllocs[cell.finger] = size, cell.allocs
 								b = 0
 							}
-							k := c18Case{l, dbg, kind, f.name, size, b, route, preset}
+							k := c18Case{l, dbg, kind, f.name, size, b, route, preset, false}
 							if cell.allocs > c18MaxAllocs || seen && cell.allocs > baseAllocs[cell.finger] {
 								if jf := vlib.Guard(func() *vlib.Failure { return c18Judge(k) }); jf != nil {
 									ck.Report(k, jf)
@@ -317,6 +362,29 @@ func checkC18(c *vlib.Ctx) (string, string) {
 						return levelMC, rule
 					}
 				}
+			}
+		}
+	}
+	// cold measurements: the largest size of every ladder against the smallest, each as the first request after two
+	// garbage collections (a pooled buffer that is grown step by step costs nothing once it is big enough)
+	for _, l := range cfgs[:6] {
+		for _, dbg := range []bool{false, true} {
+			for _, kind := range []string{"preflight", "actual"} {
+				for _, f := range fields {
+					if kind != "preflight" && !strings.HasPrefix(f.name, "origin-l") {
+						continue
+					}
+					top := f.ladder[len(f.ladder)-1]
+					if len(f.ladder) == len(countLadder) {
+						top = 1000 // (a hundred thousand lines are answered the same way as a thousand)
+					}
+					c.States.Add(1)
+					c.Transitions.Add(8)
+					ck.Try(c18Case{l, dbg, kind, f.name, top, f.ladder[0], 0, false, true})
+				}
+			}
+			if c.CheckDeadline("C18 cold measurements") {
+				return levelMC, rule
 			}
 		}
 	}
